@@ -240,7 +240,7 @@ def run(spec, ctx):
         case = WC.gen_case(rng, max_gates=25)
         case['ndata'] = rng.choice([1, 2, 3, 4])
         case['lm'] = rng.choice([2, 4, 8])
-        case['sims'] = rng.choice([2, 3, 5, 8, 9] * 3 + [33, 40])
+        case['sims'] = rng.choice([2, 3, 5, 8, 9] * 3 + [33, 40, 49, 70])
         check_case(case, ctx)
 
 
